@@ -283,6 +283,10 @@ def run(spec, ctx):
                 from rt import impl
 
                 comp = impl.call(jsonpath.compile, text)
+                if comp.ok and i % 6 == 3:
+                    from rt.jp_oracle import check_after_incomplete_passes
+
+                    check_after_incomplete_passes(ctx, ast, text, doc, None, "in-place")
                 if comp.ok and i % 6 == 0:
                     from rt.jp_oracle import check_interleaved
 
@@ -356,6 +360,12 @@ def replay(case, ctx):
         diff = got.desc() if not got.ok else impl.nodes_equal(got.value, ref.eval_query(case["ast"], case["doc"]))
         if diff:
             ctx.violation("reused-compiled-query-differs-from-model", case, {"diff": diff})
+        return
+    if case.get("in_place"):
+        from rt.jp_oracle import check_after_incomplete_passes
+
+        for _ in range(10):
+            check_after_incomplete_passes(ctx, case["ast"], case["text"], case["doc"], case.get("extra"), case.get("class", "replay"))
         return
     if case.get("interleaved"):
         from rt.jp_oracle import check_interleaved
